@@ -38,16 +38,17 @@ type Case struct {
 	TktUsage  uint32 `json:"tkt_usage"`
 	TktMut    string `json:"tkt_mut,omitempty"` // "", "flip:<bit>", "trunc:<len>"
 	// ticket, sealed part
-	Flags    uint32   `json:"flags"`
-	CName    string   `json:"cname"`
-	CRealm   string   `json:"crealm"`
-	StartOff *int64   `json:"start_off_ms"` // nil = starttime absent
-	EndOff   int64    `json:"end_off_ms"`
-	AuthOff  int64    `json:"authtime_off_ms"`
-	CAddr    []string `json:"caddr"`                   // subset of {"A","B"}; nil = absent
-	PAC      string   `json:"pac"`                     // "", "good", "badsig"
-	PACPos   string   `json:"pac_pos,omitempty"`       // where the AD-IF-RELEVANT { AD-WIN2K-PAC } element sits among the ticket's authorization data: "" = alone, behind-empty, behind-restriction, behind-two, before-other
-	Trailing string   `json:"wire_trailing,omitempty"` // "" | "forged-encpart": unauthenticated clear-text EncTicketPart-shaped SEQUENCE appended to the Ticket on the wire
+	Flags     uint32   `json:"flags"`
+	CName     string   `json:"cname"`
+	CRealm    string   `json:"crealm"`
+	StartOff  *int64   `json:"start_off_ms"` // nil = starttime absent
+	EndOff    int64    `json:"end_off_ms"`
+	AuthOff   int64    `json:"authtime_off_ms"`
+	CAddr     []string `json:"caddr"`                   // subset of {"A","B"}; nil = absent
+	PAC       string   `json:"pac"`                     // "", "good", "badsig"
+	CTimeZone string   `json:"ctime_zone,omitempty"`    // the authenticator's ctime is encoded as local time with this numeric zone offset ("+0130", "-0330", "+0100", "+0545") instead of "Z": the same instant, an encoding the library accepts
+	PACPos    string   `json:"pac_pos,omitempty"`       // where the AD-IF-RELEVANT { AD-WIN2K-PAC } element sits among the ticket's authorization data: "" = alone, behind-empty, behind-restriction, behind-two, before-other
+	Trailing  string   `json:"wire_trailing,omitempty"` // "" | "forged-encpart": unauthenticated clear-text EncTicketPart-shaped SEQUENCE appended to the Ticket on the wire
 	// authenticator
 	ACName   string `json:"auth_cname"`
 	ACRealm  string `json:"auth_crealm"`
@@ -495,6 +496,18 @@ func (c *Case) Mint(samplePAC []byte) (*Minted, error) {
 		s := uint32(c.Seed&0x3fffffff) + 1
 		a.Seq = &s
 	}
+	if c.CTimeZone != "" {
+		// GeneralizedTime with a numeric offset (X.680 allows it, RFC 4120 asks for "Z"; the library's decoder takes both)
+		off, err := time.Parse("-0700", c.CTimeZone)
+		if err != nil {
+			return nil, fmt.Errorf("bad ctime zone %q", c.CTimeZone)
+		}
+		_, secs := off.Zone()
+		v := a.Value()
+		str := v["ctime"].(time.Time).In(time.FixedZone("", secs)).Format("20060102150405-0700")
+		v["ctime"] = der.Raw(append([]byte{0x18, byte(len(str))}, str...))
+		a.RawPlain = der.Authenticator.MustEncode(v)
+	}
 	m.APReq = mint.APReq(t, a, 0)
 	m.TicketDER = t.Bytes()
 	m.Keytab = mint.KeytabBytes(c.KeytabEntries())
@@ -638,6 +651,11 @@ var Defects = map[string]func(c *Case){
 	"pac-broken-empty":  func(c *Case) { c.PAC = "broken-empty" },
 	"pac-broken-count":  func(c *Case) { c.PAC = "broken-count" },
 	"pac-broken-offset": func(c *Case) { c.PAC = "broken-offset" },
+	// the authenticator's client time written as local time with a numeric zone offset: the same instant
+	"ctime-zone-plus0130":  func(c *Case) { c.CTimeZone = "+0130" },
+	"ctime-zone-minus0330": func(c *Case) { c.CTimeZone = "-0330" },
+	"ctime-zone-plus0100":  func(c *Case) { c.CTimeZone = "+0100" },
+	"ctime-zone-plus0545":  func(c *Case) { c.CTimeZone = "+0545" },
 	// the PAC's container is not the first (or not the only) element of the ticket's authorization data
 	"pac-behind-empty":       func(c *Case) { c.PACPos = "behind-empty"; pacIfNone(c) },
 	"pac-behind-restriction": func(c *Case) { c.PACPos = "behind-restriction"; pacIfNone(c) },
